@@ -21,6 +21,7 @@ UF = sym.UF
 LN2 = UF["log"](sym.rv(2.0))
 LN10 = UF["log"](sym.rv(10.0))
 POWDOM = fn("POWDOM", R, R, B)
+NODIV0 = fn("NODIV0", Ref, B)   # no division by a literal Constant(0) anywhere in the tree (A7)
 WF = fn("WF", Ref, B)           # well-formed scalar expression tree (precondition vocabulary, see unfold_wf)
 
 
@@ -102,6 +103,11 @@ class Spec:
         unfold(self, "deg", r, ())
         return self.S.SDEG(r)
 
+    def nodiv0(self, v):
+        r = self.ref(v)
+        unfold(self, "nd0", r, ())
+        return NODIV0(r)
+
     def wf(self, v):
         r = self.ref(v)
         unfold(self, "wf", r, ())
@@ -153,7 +159,7 @@ class Spec:
 
 
 # ------------------------------------------------------------------------------------------- machinery
-TABLES: dict[str, dict[str, list]] = {"den": {}, "dv": {}, "dom": {}, "occ": {}, "deg": {}, "wf": {}}
+TABLES: dict[str, dict[str, list]] = {"den": {}, "dv": {}, "dom": {}, "occ": {}, "deg": {}, "wf": {}, "nd0": {}}
 
 
 def rule(fam: str, *kinds: str):
@@ -515,6 +521,27 @@ def _(sp, r):
     opn = sp.S.F("op", Name)(r)
     okop = z3.BoolVal(True) if sp.S.known_op(sp.ip, r) in UNARY_OPS else z3.Or(*[opn == lit(o) for o in UNARY_OPS])
     sp.ip.path.assume(WF(r) == z3.And(WF(a), okop))
+
+
+# ------------------------------------------------------------------------------------------- no division by literal 0
+@rule("nd0", "Constant", "Variable", "Parameter")
+def _(sp, r):
+    sp.ip.path.assume(NODIV0(r))
+
+
+@rule("nd0", "BinaryOp")
+def _(sp, r):
+    l, rr, _ = kids(sp, r)
+    op = sp.S.known_op(sp.ip, r)
+    isdiv = (sp.S.F("op", Name)(r) == lit("/")) if op is None else z3.BoolVal(op == "/")
+    sp.ip.path.assume(NODIV0(r) == z3.And(NODIV0(l), NODIV0(rr),
+                                          z3.Implies(z3.And(isdiv, sp.K.is_kind(rr, "Constant")), sp.S.F("value", R)(rr) != 0)))
+
+
+@rule("nd0", "UnaryOp")
+def _(sp, r):
+    _, _, a = kids(sp, r)
+    sp.ip.path.assume(NODIV0(r) == NODIV0(a))
 
 
 def install(registry):
